@@ -9,13 +9,13 @@ def gen_frag_case(rng):
     def sig(kind):
         s = rng.choice(srcs)
         return [kind, rng.choice(classes), rng.choice([0, 0, 0, -5, 3]), [] if s is None else [s]]
-    def branch(depth_hint):
+    def branch(last):
         cmds = []
         for _ in range(rng.randrange(0, 4)):
             r = rng.random()
             if r < 0.35: cmds.append([10, rng.randrange(20)])
             elif r < 0.55: cmds.append([7, rng.choice([100, 101, 102])])
-            elif r < 0.85: cmds.append(sig(4))
+            elif r < 0.85 and not last: cmds.append(sig(4))     # never in the branch that repeats: unbounded nesting
             elif r < 0.93: cmds.append([8, rng.choice(classes), rng.randrange(nh), rng.randrange(5)])
             else: cmds.append([12, rng.randrange(9)])
         r = rng.random()
@@ -24,7 +24,7 @@ def gen_frag_case(rng):
         elif r < 0.80: cmds.append([2])
         return cmds
     def chain(k):
-        bs = [branch(i) for i in range(k)]
+        bs = [branch(i == k - 1) for i in range(k)]
         out = bs[-1]
         for i in range(k - 2, -1, -1):
             out = [[9, i + 1, bs[i], out]]
